@@ -273,10 +273,7 @@ func c18Long(c *explore.Ctx) {
 	if c.Thorough() {
 		lens = append(lens, 2047, 2048, 2049, 65535, 65536, 65537)
 	}
-	type shape struct {
-		blocks []int // candidate set per block
-		split  int
-	}
+	type shape = c18Shape
 	var shapes []shape
 	nf := len(cands)
 	for a := 0; a < nf; a++ {
@@ -298,6 +295,37 @@ func c18Long(c *explore.Ctx) {
 			}
 		}
 	}
+	// LATE NEWCOMER shapes: a first block that matches many documents through one field (ids of all
+	// documents lacking the newcomer), a long middle block of another field that only repeats terms
+	// matching nothing new, and as the very last entry a term of the middle block's field that
+	// matches documents not matched so far (anything that decides half-way that a field "is done").
+	// Candidate sets 5.. are used by these shapes only.
+	late := len(cands)
+	var idsWithout []pairT
+	for i := 0; i < 130; i++ {
+		if !(i%2 == 0 && i%7 == 3) && i%40 != 11 && i != 1 {
+			idsWithout = append(idsWithout, pairT{"_id", fmt.Sprintf("r%d", i)})
+		}
+	}
+	cands = append(cands,
+		idsWithout,                            // 5: _id of every document that has neither b:t3 nor a:u11 and is not r1
+		[]pairT{{"b", "t6"}, {"b", "nosuch"}}, // 6: b, narrow
+		[]pairT{{"b", "t3"}},                  // 7: the newcomer of b
+		[]pairT{{"a", "u39"}, {"a", "zz"}},    // 8: a, narrow
+		[]pairT{{"a", "u11"}},                 // 9: the newcomer of a
+		[]pairT{{"_id", "r0"}, {"_id", "q0"}}, // 10: _id, narrow
+		[]pairT{{"_id", "r1"}},                // 11: the newcomer of _id
+		[]pairT{{"a", "x"}},                   // 12: every document
+	)
+	type lateShape = struct{ first, mid, last, nFirst int }
+	var lates []lateShape
+	for _, first := range []int{late, late + 7} {
+		for _, ml := range [][2]int{{late + 1, late + 2}, {late + 3, late + 4}, {late + 5, late + 6}} {
+			for _, nFirst := range []int{1, 200} {
+				lates = append(lates, lateShape{first, ml[0], ml[1], nFirst})
+			}
+		}
+	}
 	for fi, form := range []string{"built", "loaded", "merged"} {
 		scope := "LONG-LIST/" + form
 		if c.Replay && c.ReplayScope != scope {
@@ -316,7 +344,7 @@ func c18Long(c *explore.Ctx) {
 		}
 		var idx int64
 		for _, L := range lens {
-			for _, sh := range shapes {
+			for _, sh := range append(append([]shape{}, shapes...), lateAsShapes(lates)...) {
 				my := idx
 				idx++
 				if !c.MineIdx(scope, my) {
@@ -335,7 +363,11 @@ func c18Long(c *explore.Ctx) {
 				case 2:
 					bl = [][]int{{L - 1, 1}, {1, L - 1}, {L / 2, L - L/2}, nil}[sh.split]
 				case 3:
-					bl = [][]int{{L - 2, 1, 1}, {1, L - 2, 1}, {1, 1, L - 2}}[sh.split]
+					if sh.split >= 100 { // late newcomer: (nFirst, the rest, 1)
+						bl = []int{sh.split - 100, L - (sh.split - 100) - 1, 1}
+					} else {
+						bl = [][]int{{L - 2, 1, 1}, {1, L - 2, 1}, {1, 1, L - 2}}[sh.split]
+					}
 				}
 				list := make([]segment.Term, 0, L)
 				wantSet := map[uint32]bool{}
@@ -358,7 +390,7 @@ func c18Long(c *explore.Ctx) {
 						}
 					}
 				}
-				cas := fmt.Sprintf("%s #%d length=%d blocks=%v split=%d (block k cycles through candidate set blocks[k]; candidate sets: 0=_id r0,q0,r3,q3,... 1=b 2=a 3=unknown field 4=a:u7)", scope, my, L, sh.blocks, sh.split)
+				cas := fmt.Sprintf("%s #%d length=%d blocks=%v split=%d (block k cycles through candidate set blocks[k]; candidate sets: 0=_id r0,q0,r3,q3,... 1=b 2=a 3=unknown field 4=a:u7 5=ids of the documents lacking the newcomers 6/7=b narrow/newcomer 8/9=a 10/11=_id 12=a:x; split>=100: blocks of split-100, the rest, 1 entries)", scope, my, L, sh.blocks, sh.split)
 				c.Sample(my, func() string { return cas })
 				var bm *roaring.Bitmap
 				msg := explore.Guard(func() { bm, err = seg.DocsMatchingTerms(list) })
@@ -377,4 +409,17 @@ func c18Long(c *explore.Ctx) {
 			}
 		}
 	}
+}
+
+type c18Shape struct {
+	blocks []int // candidate set per block
+	split  int   // >= 100: late-newcomer shape with a first block of split-100 entries
+}
+
+func lateAsShapes(ls []struct{ first, mid, last, nFirst int }) []c18Shape {
+	var out []c18Shape
+	for _, l := range ls {
+		out = append(out, c18Shape{[]int{l.first, l.mid, l.last}, 100 + l.nFirst})
+	}
+	return out
 }
